@@ -114,7 +114,13 @@ TraceCallable ==
          <<"C11.callable_sampler_is_applied_to_the_source_and_returned", e.exc # "" \/
               (e.ncalls = 2 /\ e.called_with_source /\ e.returned_as_is)>>}))
 
-Next == TraceStart \/ TraceDraw \/ TraceBuilt \/ TraceEndHistory \/ TraceCallable
+(* a scripted outcome of the model could not be replayed because the implementation asked the     *)
+(* generator for something else than the model's next call: conformance drift, never a verdict   *)
+TraceScriptDrift ==
+  /\ IsEvent("ScriptDrift") /\ UNCHANGED <<run, hist>>
+  /\ Report(Log[l], {"DRIFT.scripted_replay_follows_model"})
+
+Next == TraceScriptDrift \/ TraceStart \/ TraceDraw \/ TraceBuilt \/ TraceEndHistory \/ TraceCallable
 Spec == Init /\ [][Next]_vars
 AllConsumed == TLCGet("stats").diameter - 1 = Len(Log)
 =============================================================================
